@@ -83,6 +83,24 @@ def check_program(rep: Report, prog: Dict[str, Any], rng: random.Random, n_trial
         up = torch.randn(2, dim, generator=g, dtype=torch.float64)
         case = {"par": par, "taus": taus, "trial": trial}
         rep.case(("prog", tuple(par), trial), nontrivial=n >= 2)
+        # (0) process history: the SAME program and taus are first run in a lower precision (compared at that precision's
+        # tolerance) -- "for any tau" must not depend on which dtype used a tau first in this process
+        wdt, wtol = rng.choice([(torch.bfloat16, 6e-2), (torch.float16, 1e-2), (torch.float32, 1e-4)])
+        xw = x0.to(wdt).requires_grad_(True)
+        wm = [A.to(wdt) for A in mats]
+        yw = run_real(par, taus, [lambda h, A=A: h @ A.t() for A in wm], xw, bool(trial % 2), {})
+        (gw,) = torch.autograd.grad(yw, xw, up.to(wdt))
+        xw64 = x0.to(wdt).double().requires_grad_(True)
+        yw64 = run_reference(par, taus, [lambda h, A=A: h @ A.double().t() for A in wm], xw64)
+        (gw64,) = torch.autograd.grad(yw64, xw64, up.to(wdt).double())
+        amp = 1.0 + sum(float(A.abs().sum(dim=1).max()) for A in wm)   # crude bound on rounding amplification through the linear branches
+        if yw.dtype != wdt or gw.dtype != wdt or not bool(torch.isfinite(yw).all()):
+            rep.violation(f"{wdt} run of program par={par}, taus={taus}: wrong dtype or non-finite output", dict(case, kind="low_precision", dtype=str(wdt)), key="low_precision_dtype")
+            return
+        if float((yw.detach().double() - yw64.detach()).abs().max()) > wtol * amp * max(1.0, float(yw64.detach().abs().max())) or \
+                float((gw.double() - gw64).abs().max()) > wtol * amp * max(1.0, float(gw64.abs().max())):
+            rep.violation(f"{wdt} run of program par={par}, taus={taus} differs from the reference beyond {wtol:g} x {amp:.3g}", dict(case, kind="low_precision", dtype=str(wdt)), key="low_precision_value")
+            return
         # (a) linear branches: closed form from the spec's path coefficients
         for use_apply in (False, True):
             x = x0.clone().requires_grad_(True)
